@@ -118,7 +118,11 @@ func streamBody(sc streamScenario) func(s *vsched.Sched) *vsched.ExecOutcome {
 	return func(s *vsched.Sched) *vsched.ExecOutcome {
 		r := &streamRun{sc: sc}
 		type valKey struct{}
-		base := context.WithValue(context.Background(), valKey{}, "caller-value")
+		// the caller's context already carries the interceptor context of ANOTHER
+		// call (e.g. it was derived from another stream's Context()): the picker
+		// must still see this call's first message
+		base := context.WithValue(context.Background(), gcpKey, &gcpContext{reqMsg: &reqMsg{Key: "other-call"}, replyMsg: &replyMsg{}})
+		base = context.WithValue(base, valKey{}, "caller-value")
 		ctx, cancel := vctx.WithCancel(base)
 		r.ctx = ctx
 		desc := &grpc.StreamDesc{StreamName: "S", ClientStreams: true, ServerStreams: true}
@@ -327,7 +331,7 @@ func checkUnary(c *vsched.RunCtx) vsched.Stats {
 	optLists := [][]grpc.CallOption{nil, {grpc.EmptyCallOption{}}, {grpc.EmptyCallOption{}, grpc.EmptyCallOption{}}}
 	reqs := []interface{}{&reqMsg{Key: "k"}, nil, "not a message"}
 	replies := []interface{}{&replyMsg{}, nil}
-	ctxVals := []interface{}{nil, "v"}
+	ctxVals := []interface{}{nil, "v", "stale-gcp-context"}
 	distinct := map[string]bool{}
 	for _, m := range methods {
 		for _, ie := range invErrs {
@@ -337,6 +341,10 @@ func checkUnary(c *vsched.RunCtx) vsched.Stats {
 						for _, cv := range ctxVals {
 							st.Execs++
 							ctx := context.Background()
+							if cv == "stale-gcp-context" {
+								// derived from another intercepted call
+								ctx = context.WithValue(ctx, gcpKey, &gcpContext{reqMsg: &reqMsg{Key: "other-call"}, replyMsg: &replyMsg{}})
+							}
 							if cv != nil {
 								ctx = context.WithValue(ctx, valKey{}, cv)
 							}
@@ -394,6 +402,10 @@ func checkC12(c *vsched.RunCtx) {
 		pre, dev = 3, 2
 	}
 	scs := streamScenarios()
+	if c.Replay != nil && c.Replay.Harness == "unary-interceptor" {
+		checkUnary(c) // violations are matched by signature in vsched.Main
+		return
+	}
 	if c.Replay != nil {
 		for _, sc := range scs {
 			if sc.Name == c.Replay.Config {
